@@ -33,6 +33,9 @@ def _self_attr_loads(f: Func) -> List[ast.Attribute]:
     return [n for n in own_nodes(f.node) if isinstance(n, ast.Attribute) and isinstance(n.value, ast.Name) and n.value.id == s and isinstance(n.ctx, ast.Load)]
 
 
+from ..util import influences_result as _influences_result
+
+
 def rule_k1(ctx) -> None:
     ctx.rule("C12-K1", "every caller-settable attribute read in the bypassed region flows into the hashed payload", 4)
     prog = ctx.prog
@@ -75,6 +78,8 @@ def rule_k1(ctx) -> None:
     for q in sorted(region):
         f = prog.functions[q]
         for a in _self_attr_loads(f):
+            if not _influences_result(a):
+                continue
             if a.attr in stage_args:
                 for x in stage_args[a.attr]:
                     for root in (source.get(x) or {x}):
